@@ -87,7 +87,11 @@ def _r1(ctx, pkg):
                     f = c.func
                     if isinstance(f, ast.Name) and f.id in KNOWN:
                         continue
-                    if isinstance(f, ast.Attribute) and not (isinstance(f.value, ast.Name) and f.value.id == "self" and res(f.attr) is None and f.attr not in ("rpeq",)):
+                    root = f
+                    while isinstance(root, (ast.Attribute, ast.Subscript, ast.Call)):
+                        root = root.value if not isinstance(root, ast.Call) else root.func
+                    imported = isinstance(root, ast.Name) and root.id in pkg.imports.get(RF, {}) and root.id not in KNOWN
+                    if isinstance(f, ast.Attribute) and not imported and not (isinstance(f.value, ast.Name) and f.value.id == "self" and res(f.attr) is None and f.attr not in ("rpeq",)):
                         continue        # a method of some value (x.items()), or a helper of the class that was followed
                     out.append(ast.unparse(f)[:40])
         return sorted(set(out))
